@@ -198,6 +198,8 @@ pub fn scenarios(thorough: bool) -> Vec<Scenario> {
     v.push(pair_conflict_scenario("pair-conflict-edit-vs-delete", 4, 3, &[8, 9], if thorough { 4 } else { 3 },
         &[Op::Resolve(1, 0, 0), Op::Resolve(1, 0, 1), Op::Resolve(1, 1, 0), Op::Resolve(0, 0, 1)]));
     v.push(trio_scenario("trio", if thorough { 7 } else { 5 }));
+    v.push(long_chain_scenario("pair-long-chain", if thorough { 3 } else { 2 }, &[]));
+    v.push(diamond_scenario("pair-diamond", &[1, 9], if thorough { 4 } else { 3 }, &[Op::Resolve(0, 0, 0), Op::ObjPut(0, 1), Op::ObjPut(1, 2)]));
     v
 }
 
